@@ -17,10 +17,8 @@ package main
 // Observation: the event log `i:G ; i:C ; i:W ; i:N:<t>:<ok> ; i:L:<n>` + `#CB:<number of callback runs>`.
 
 import (
-	"bytes"
 	"fmt"
 	"math/rand"
-	"runtime"
 	"strconv"
 	"strings"
 	"sync/atomic"
@@ -67,94 +65,6 @@ func (c *cbInner) Left() int {
 	l := c.Schedule.Left()
 	c.c.park("G")
 	return l
-}
-
-// goStatus returns the runtime's wait status of a goroutine ("running", "chan send", "sync.Mutex.Lock", …) and
-// the text of its stack.
-func goStatus(gid int64) (string, string) {
-	buf := make([]byte, 1<<16)
-	for {
-		n := runtime.Stack(buf, true)
-		if n < len(buf) {
-			buf = buf[:n]
-			break
-		}
-		buf = make([]byte, 2*len(buf))
-	}
-	key := []byte("goroutine " + strconv.FormatInt(gid, 10) + " [")
-	for off := 0; off < len(buf); {
-		i := bytes.Index(buf[off:], key)
-		if i < 0 {
-			return "gone", ""
-		}
-		i += off
-		if i == 0 || buf[i-1] == '\n' {
-			rest := buf[i+len(key):]
-			j := bytes.IndexAny(rest, ",]")
-			if j < 0 {
-				return "?", ""
-			}
-			end := bytes.Index(rest, []byte("\n\n"))
-			if end < 0 {
-				end = len(rest)
-			}
-			return string(rest[:j]), string(rest[:end])
-		}
-		off = i + len(key)
-	}
-	return "gone", ""
-}
-
-// syncBlocked: the goroutine waits on a sync primitive (mutex, Once, RWMutex, Cond, WaitGroup) taken by code of the
-// package under test (frames of `within` on its stack) — not a momentary wait inside fmt, the allocator or the harness.
-func syncBlocked(gid int64, within string) bool {
-	st, stack := goStatus(gid)
-	if !(strings.HasPrefix(st, "sync.") || strings.HasPrefix(st, "semacquire")) {
-		return false
-	}
-	return strings.Contains(stack, within)
-}
-
-// cbWait waits for the next event of a released worker: an event, "W" (blocked on a sync primitive) or "HANG".
-func cbWait(w *cbWorker) string {
-	t := time.NewTimer(300 * time.Microsecond)
-	defer t.Stop()
-	select {
-	case ev := <-w.parked:
-		return ev
-	case <-t.C:
-	}
-	deadline := time.Now().Add(4 * time.Second)
-	for {
-		select {
-		case ev := <-w.parked:
-			return ev
-		default:
-		}
-		if syncBlocked(w.gid, "/core/coreutil.") {
-			// seen twice, half a millisecond apart, with no event in between: blocked, not passing through
-			t3 := time.NewTimer(500 * time.Microsecond)
-			select {
-			case ev := <-w.parked:
-				t3.Stop()
-				return ev
-			case <-t3.C:
-			}
-			if syncBlocked(w.gid, "/core/coreutil.") {
-				return "W"
-			}
-		}
-		if time.Now().After(deadline) {
-			return "HANG"
-		}
-		t2 := time.NewTimer(200 * time.Microsecond)
-		select {
-		case ev := <-w.parked:
-			t2.Stop()
-			return ev
-		case <-t2.C:
-		}
-	}
 }
 
 func runCbConc(m map[string]string) string {
@@ -207,15 +117,49 @@ func runCbConc(m map[string]string) string {
 		<-ready
 		cs.byGid[w.gid] = w
 	}
+	{
+		var gids []int64
+		for _, w := range ws {
+			gids = append(gids, w.gid)
+		}
+		nRegisterGids(gids, nil, true)
+		defer nRegisterGids(gids, nil, false)
+	}
 	var log []string
 	bad := false
+	// next event of worker i: released if it is not in the middle of a call, then looked at only when ALL workers in
+	// the middle of a call have come to rest (event pending, or blocked): a caller that was blocked may still be
+	// held up by another one that has just been let through and has not got to its return yet
 	step := func(i int) string {
 		w := ws[i]
+		ev := ""
 		if !w.mid {
 			w.resume <- struct{}{}
 			w.mid = true
+			t := time.NewTimer(300 * time.Microsecond)
+			select {
+			case ev = <-w.parked:
+			case <-t.C:
+			}
+			t.Stop()
 		}
-		ev := cbWait(w)
+		if ev == "" {
+			var gids []int64
+			for _, x := range ws {
+				if x.mid {
+					gids = append(gids, x.gid)
+				}
+			}
+			if settleGoroutines(gids, "/core/coreutil.", 4*time.Second) == nil {
+				ev = "HANG"
+			} else {
+				select {
+				case ev = <-w.parked:
+				default:
+					ev = "W"
+				}
+			}
+		}
 		log = append(log, fmt.Sprintf("%d:%s", i, ev))
 		switch {
 		case ev == "W":
